@@ -140,12 +140,25 @@ theorem ids_updPods (g : Pod → Pod) (hg : ∀ p, (g p).id = p.id) (i : Nat) (p
     by_cases hp : p.id = i <;> simp [hp, hg]
 
 theorem mem_updPods {g : Pod → Pod} {i : Nat} {ps : List Pod} {x : Pod} (hx : x ∈ updPods g i ps) :
-    x ∈ ps ∨ ∃ p ∈ ps, x = g p := by
+    x ∈ ps ∨ ∃ p ∈ ps, p.id = i ∧ x = g p := by
   simp only [updPods, List.mem_map] at hx
   obtain ⟨p, hp, rfl⟩ := hx
   split
-  · right; exact ⟨p, hp, rfl⟩
+  · next h => right; exact ⟨p, hp, h, rfl⟩
   · left; exact hp
+
+theorem pod_unique : ∀ (ps : List Pod), (ps.map (·.id)).Nodup → ∀ {p e : Pod}, p ∈ ps → e ∈ ps → p.id = e.id → p = e := by
+  intro ps
+  induction ps with
+  | nil => intro _ p e hp; simp at hp
+  | cons y t ih =>
+    intro hn p e hp1 he1 hid
+    simp only [List.map_cons, List.nodup_cons] at hn
+    rcases List.mem_cons.mp hp1 with a1 | a1 <;> rcases List.mem_cons.mp he1 with b1 | b1
+    · rw [a1, b1]
+    · exfalso; apply hn.1; rw [← a1, hid]; exact List.mem_map.mpr ⟨e, b1, rfl⟩
+    · exfalso; apply hn.1; rw [← b1, ← hid]; exact List.mem_map.mpr ⟨p, a1, rfl⟩
+    · exact ih hn.2 a1 b1 hid
 
 /-- cache ids are unique per quota -/
 def PodsOK (s : State) : Prop := ∀ q ∈ s, (q.pods.map (·.id)).Nodup
